@@ -13,6 +13,38 @@ pub fn files_json(files: &[(String, String)]) -> serde_json::Value
 	json!(files.iter().map(|(n, s)| json!({"file": n, "source": s})).collect::<Vec<_>>())
 }
 
+/// `[` directly inside an array literal: after `[`, or after `,` when the
+/// innermost open bracket is `[`
+fn has_nested_array_literal(src: &str) -> bool
+{
+	let toks = crate::reflex::lex(src.as_bytes()).toks;
+	let mut stack: Vec<u8> = Vec::new();
+	let mut prev: &str = "";
+	for t in &toks
+	{
+		let text = src.get(t.start..t.end).unwrap_or("");
+		match text
+		{
+			"[" =>
+			{
+				if prev == "[" || (prev == "," && stack.last() == Some(&b'['))
+				{
+					return true;
+				}
+				stack.push(b'[');
+			}
+			"(" | "{" => stack.push(text.as_bytes()[0]),
+			"]" | ")" | "}" =>
+			{
+				stack.pop();
+			}
+			_ => (),
+		}
+		prev = text;
+	}
+	false
+}
+
 fn judge(case: &Case, out: &mut CaseOut, want_sample: bool)
 {
 	let o = alpha::compile_modules(
@@ -43,8 +75,15 @@ fn judge(case: &Case, out: &mut CaseOut, want_sample: bool)
 	}
 	else if !o.ok && o.codes.is_empty()
 	{
+		// one recorded finding has this symptom (element types of a nested
+		// array literal that do not agree): keep it apart from anything else
+		let nested = case.files.iter().any(|(_, s)| has_nested_array_literal(s));
 		out.fail(
-			format!("failure with an empty list of errors (stage {})", o.stage),
+			format!(
+				"failure with an empty list of errors (stage {}){}",
+				o.stage,
+				if nested { " [source has a nested array literal]" } else { "" }
+			),
 			json!({"files": files_json(&case.files)}),
 		);
 	}
